@@ -700,7 +700,7 @@ package mcp
 //@ ghost stable newsessions int
 //@ func newSession
 //@   counted newsessions
-//@   modifies *, newsessions, randreads
+//@   modifies *, newsessions, randreads, lasthex, lasthexsrc, lastrandbuf
 //@   ensures !isnil(result)
 //@
 //@ func httpServerHandler.handlePost
@@ -1875,4 +1875,22 @@ package mcp
 //@   counted getconnects
 //@ func streamableHTTPClientTransport.establishGetSSE$1
 //@   ensures[C07 one-connection-attempt-per-establish-call] getconnects <= old(getconnects) + 1
+//@
+// ---- eleventh measurement round (ids -12): general facts behind the misses ----
+// C11 — the handler of a listening stream ends with its own stream context (cancelled when the stream is replaced
+// or the session ends), not with the HTTP request's
+//@ func httpServerHandler.handleGet
+//@   before call Done#1 assert[C11 the-stream-handler-waits-for-its-own-stream-context] arg0 == connCtx
+//@
+// C15 / C13 — behind the middleware chain the core dispatches with this request's session whenever the request has one
+//@ func mcpHandler.handleRequest$1
+//@   before call dispatchRequest#0 assert[C15,C13 the-core-dispatches-with-a-session-whenever-the-request-has-one] !isnil(session) ==> !isnil(arg3)
+//@
+// C19 — a relative message endpoint is resolved against the configured URL (credentials and base path included)
+//@ func sseClientTransport.handleEndpointEvent
+//@   before call ResolveReference#1 assert[C19 a-relative-message-endpoint-is-resolved-against-the-configured-url] arg0 == t.baseURL && arg1 == parsedURL
+//@
+// C13 — HTTP context functions accumulate in registration order
+//@ func WithHTTPContextFunc$1
+//@   ensures[C13 a-later-context-function-runs-after-the-earlier-ones] len(s.config.httpContextFuncs) == len(old(s.config.httpContextFuncs)) + 1 && s.config.httpContextFuncs[len(old(s.config.httpContextFuncs))] == fn && (forall j int :: 0 <= j && j < len(old(s.config.httpContextFuncs)) ==> s.config.httpContextFuncs[j] == old(s.config.httpContextFuncs[j]))
 //@
